@@ -6,21 +6,26 @@
 (b) TIE     * scope core: programs generated FROM operation trees; the lookups grass performs
               (`@debug $n`) must equal the outputs of `Grass.Scope.run Cfg.now` on the same operations;
             * evaluator: random programs; declarations + @debug/@warn trace + error class of grass
-              must equal `Grass.Eval.evalProgram`.
+              must equal `Grass.Eval.evalProgram Dev.asFound` (the reference evaluator with the
+              as-found switches of the known findings N2, N3 on).
 (c) DIRECT  the specification is the oracle: P̂(program, observation) = "the observation is the one
-            the specification's evaluation rules produce" (`scope check` in Lean for the operation
-            sequences; canonical-trace equality with the reference evaluator for programs).
+            the specification's evaluation rules produce" — `scope check` in Lean for operation
+            sequences; canonical-trace equality with `evalProgram Dev.spec` for programs.  A failure
+            is shrunk on the AST and reported (KNOWN-FINDING when it is exactly one of the as-found
+            switches that explains it, VIOLATION otherwise).
 """
 import json
 import re
 import time
 
 import cssread
-from vlib import Check, RunnerPool, compile_job, driver, log, sha
+from vlib import Check, RunnerPool, compile_job, driver, log
 
 from props import c03_gen as G
 
 FUEL = 600
+DEV_ALL = "er"
+DEV_TAGS = {"e": "N3-empty-list-declaration", "r": "N2-rest-separator"}
 
 ERR_CLASSES = [
     (r"^Undefined variable\.", "undefined-variable"),
@@ -36,10 +41,10 @@ ERR_CLASSES = [
     (r"is not an int\.", "not-an-integer"),
     (r"^Declarations may only be used within style rules\.", "decl-outside-rule"),
     (r"^This at-rule is not allowed here\.", "static-error"),
+    (r'^expected "\{"\.', "static-error"),
     (r"^Mixin doesn't accept a content block\.", "no-content-accepted"),
     (r"^Duplicate key\.", "duplicate-key"),
-    (r"^Invalid index ", "index-out-of-bounds"),
-    (r"^\$n: Invalid index ", "index-out-of-bounds"),
+    (r"Invalid index ", "index-out-of-bounds"),
 ]
 
 
@@ -55,32 +60,8 @@ def hx(s):
     return b.hex() if b else "-"
 
 
-def obs_impl(ans):
-    """Canonical observation of one grass run: the string the Lean driver would print."""
-    st = ans.get("status")
-    logs = [(l.get("kind"), l.get("msg", "")) for l in ans.get("logs", [])]
-    logtxt = ",".join(f"{k}:{hx(m)}" for k, m in logs) or "-"
-    if st == "ok":
-        try:
-            tree = cssread.parse(ans.get("css") or "")
-        except cssread.IllFormed as e:
-            return f"ill-formed-css {e}"
-        decls = []
-        collect(tree, [], decls)
-        # declarations are compared per selector, in order (the position of a nested rule relative
-        # to its parent's declarations belongs to C04)
-        css = ",".join(f"{hx(s)}:{hx(p)}:{hx(v)}" for s, p, v in decls) or "-"
-        return f"ok done | {css} | {logtxt}"
-    if st == "err":
-        msg = (ans.get("err") or {}).get("message", "")
-        c = err_class(msg)
-        if c == "other":
-            # @error: the message is the inspected value
-            return f"ok err user-error:{hx(msg)} | - | {logtxt}"
-        if c == "static-error":
-            return "ok err static-error | - | -"
-        return f"ok err {c} | - | {logtxt}"
-    return f"{st} {ans.get('panic') or ans.get('why') or ''}"
+def unhx(h):
+    return "" if h == "-" else bytes.fromhex(h).decode("utf-8", "replace")
 
 
 def collect(nodes, ctx, out):
@@ -91,8 +72,49 @@ def collect(nodes, ctx, out):
             out.append((" ".join(ctx), nd["name"], nd["value"]))
 
 
+def group_css(css):
+    """Declarations are compared per selector, in order (where a nested rule is placed relative to
+    its parent's declarations belongs to C04)."""
+    if css == "-":
+        return "-"
+    order, by = [], {}
+    for it in css.split(","):
+        s = it.split(":")[0]
+        if s not in by:
+            by[s] = []
+            order.append(s)
+        by[s].append(it)
+    return ",".join(x for s in sorted(order) for x in by[s])
+
+
+def obs_impl(ans):
+    """Canonical observation of one grass run, in the format the Lean driver prints."""
+    st = ans.get("status")
+    logs = [(l.get("kind"), l.get("msg", "")) for l in ans.get("logs", [])]
+    logtxt = ",".join(f"{k}:{hx(m)}" for k, m in logs) or "-"
+    if st == "ok":
+        try:
+            tree = cssread.parse(ans.get("css") or "")
+        except cssread.IllFormed as e:
+            return f"ill-formed-css {e}"
+        decls = []
+        collect(tree, [], decls)
+        css = ",".join(f"{hx(s)}:{hx(p)}:{hx(v)}" for s, p, v in decls) or "-"
+        return f"ok done | {group_css(css)} | {logtxt}"
+    if st == "err":
+        msg = (ans.get("err") or {}).get("message", "")
+        c = err_class(msg)
+        if c == "other":
+            # @error: the message is the inspected value
+            logtxt = (logtxt + "," if logtxt != "-" else "") + f"error:{hx(msg)}"
+            return f"ok err user-error | - | {logtxt}"
+        if c == "static-error":
+            return "ok err static-error | - | -"
+        return f"ok err {c} | - | {logtxt}"
+    return f"{st} {ans.get('panic') or ans.get('why') or ''}"
+
+
 def canon_model(line):
-    """Model line -> the same canonical form (declarations grouped per selector)."""
     if not line.startswith("ok "):
         return line
     parts = line.split(" | ")
@@ -106,48 +128,41 @@ def canon_model(line):
     return f"{head} | {group_css(css)} | {logs}"
 
 
-def group_css(css):
-    if css == "-":
-        return "-"
-    items = css.split(",")
-    order, by = [], {}
-    for it in items:
-        s = it.split(":")[0]
-        if s not in by:
-            by[s] = []
-            order.append(s)
-        by[s].append(it)
-    return ",".join(x for s in sorted(order) for x in by[s])
-
-
-def canon_impl(o):
-    if not o.startswith("ok "):
+def pretty(o):
+    """Readable form of a canonical observation (for replay files and reports)."""
+    parts = o.split(" | ")
+    if len(parts) != 3:
         return o
-    head, css, logs = o.split(" | ")
-    return f"{head} | {group_css(css)} | {logs}"
+    css = [] if parts[1] == "-" else [tuple(unhx(x) for x in it.split(":")) for it in parts[1].split(",")]
+    logs = [] if parts[2] == "-" else [(it.split(":")[0], unhx(it.split(":")[1])) for it in parts[2].split(",")]
+    return {"status": parts[0], "declarations": [f"{s} {{ {p}: {v} }}" for s, p, v in css],
+            "log": [f"{k}: {m}" for k, m in logs]}
 
 
 # ---------------------------------------------------------------------------------------------
 # running cases
 # ---------------------------------------------------------------------------------------------
 
-def run_programs(pool, progs, syntax="scss"):
-    """progs: list of (eval_prog, grass_prog, files) -> (impl canonical, model canonical) lists."""
-    jobs = []
-    for ep, gp, files in progs:
-        src = G.to_scss(gp) if syntax == "scss" else G.to_sass(gp)
-        if files:
-            fs = {"/w/main." + syntax: src}
-            for k, v in files.items():
-                fs["/w/" + k] = v
-            jobs.append(compile_job(files=fs, entry="/w/main." + syntax, syntax=syntax))
-        else:
-            jobs.append(compile_job(src, syntax=syntax))
-    answers = pool.map(jobs, timeout=10)
-    impl = [canon_impl(obs_impl(a)) for a in answers]
-    outs = driver([f"eval run {FUEL} " + G.to_tokens(ep) for ep, _, _ in progs])
-    model = [canon_model(o) for o in outs]
-    return impl, model, answers
+def job_for(gp, files, syntax="scss"):
+    src = G.to_scss(gp) if syntax == "scss" else G.to_sass(gp)
+    if files:
+        fs = {"/w/main." + syntax: src}
+        for k, v in files.items():
+            fs["/w/" + k] = v
+        return compile_job(files=fs, entry="/w/main." + syntax, syntax=syntax)
+    return compile_job(src, syntax=syntax)
+
+
+def run_impl(pool, progs, syntax="scss"):
+    answers = pool.map([job_for(gp, files, syntax) for gp, files in progs], timeout=10)
+    return [obs_impl(a) for a in answers], answers
+
+
+def run_model(progs, dev):
+    return [canon_model(o) for o in driver([f"eval run {FUEL} {dev or '-'} " + G.to_tokens(p) for p in progs])]
+
+
+MODEL_SKIP = ("unsupported", "ok out-of-fuel", "bad-op")
 
 
 def size_of(t):
@@ -156,14 +171,15 @@ def size_of(t):
     return 1
 
 
-def shrink(pool, prog, still_fails, rounds=40):
-    """Greedy structural shrinking: repeatedly take the smallest one-step reduction that still fails."""
+def shrink(pool, prog, fails, rounds=60):
+    """Greedy structural shrinking: repeatedly take the smallest one-step reduction that still
+    fails (`fails(list of programs) -> list of bool`)."""
     cur = prog
     for _ in range(rounds):
-        cands = sorted(set(G.shrink_candidates(cur)), key=size_of)[:400]
+        cands = sorted(set(G.shrink_candidates(cur)), key=size_of)[:300]
         if not cands:
             break
-        flags = still_fails(cands)
+        flags = fails(cands)
         nxt = next((c for c, f in zip(cands, flags) if f), None)
         if nxt is None:
             break
@@ -171,7 +187,21 @@ def shrink(pool, prog, still_fails, rounds=40):
     return cur
 
 
+def classify(pool, prog, syntax="scss"):
+    """-> (impl, asfound, spec, tags): tags = as-found switches that explain a spec difference."""
+    impl, _ = run_impl(pool, [(prog, None)], syntax)
+    asf = run_model([prog], DEV_ALL)[0]
+    spec = run_model([prog], "")[0]
+    tags = []
+    if asf != spec:
+        for f in DEV_ALL:
+            if run_model([prog], f)[0] != spec:
+                tags.append(DEV_TAGS[f])
+    return impl[0], asf, spec, tags
+
+
 # minimised past failures (eval programs), run first on every run
+F = G.Fraction
 CORPUS = [
     # D3 (fixed in /repo): stale variable-index cache in a closure
     (("var", "x", ("str", "global", False), False, False),
@@ -179,10 +209,18 @@ CORPUS = [
                     ("mixin", "m", ((), None), (("decl", "b", ("var", "x")),)),
                     ("var", "x", ("str", "local", False), False, False),
                     ("incl", "m", ((), (), None), None)))),
+    # N3 (known): an empty list as a declaration value
+    (("rule", "a", (("decl", "p", ("list", (), "u", False)),)),),
+    # N2 (known): separator of a spread list bound to a rest parameter
+    (("func", "f", ((), "rest"), (("ret", ("var", "rest")),)),
+     ("debug", ("call", "f", (), (), ("list", (("num", F(1)), ("num", F(2))), "s", False)))),
+    # precedence / unary minus spellings that once confused the printer
+    (("debug", ("list", (("num", F(5)), ("bin", "add", ("neg", ("num", F(-6))), ("num", F(3)))), "s", False)),),
+    (("debug", ("neg", ("call", "length", (("list", (), "u", False),), (), None))),),
 ]
 
 
-def eval_stream(ck, pool, tier):
+def eval_stream(ck, pool, tier, syntaxes=("scss",)):
     rng = ck.rng
     n = 2600 if tier == "quick" else 90000
     cfg = G.Cfg(depth=4, max_stmts=25) if tier == "quick" else G.Cfg(depth=6, max_stmts=40)
@@ -190,26 +228,31 @@ def eval_stream(ck, pool, tier):
     for _ in range(n):
         cases.append(G.gen_program(rng, cfg))
     failing = []
-    B = 4000
+    B = 6000
     for off in range(0, len(cases), B):
         chunk = cases[off:off + B]
-        impl, model, answers = run_programs(pool, [(p, p, None) for p, _ in chunk])
-        for (p, feats), io, mo, ans in zip(chunk, impl, model, answers):
-            if mo == "unsupported" or mo == "ok out-of-fuel" or mo == "bad-op":
+        progs = [p for p, _ in chunk]
+        impl, _ = run_impl(pool, [(p, None) for p in progs])
+        asf = run_model(progs, DEV_ALL)
+        spec = run_model(progs, "")
+        for (p, feats), io, mo, so in zip(chunk, impl, asf, spec):
+            if mo in MODEL_SKIP or so in MODEL_SKIP:
                 ck.cov["unsupported_dropped"] += 1
                 ck.hist("model:" + mo)
                 continue
             nontrivial = any(f in feats for f in ("fn-call", "@include", "nested-assign", "!global", "corpus"))
-            ck.count(("eval", G.to_tokens(p)), nontrivial)
+            ck.count("eval " + G.to_tokens(p), nontrivial)
             for f in feats:
                 ck.hist("feature:" + f)
-            ck.hist("outcome:" + " ".join(mo.split(" | ")[0].split(":")[0].split()[1:3]))
-            ck.hist("size:%d0-%d9" % (size_of(p) // 100 * 10, size_of(p) // 100 * 10 + 9) if False else "stmts:%d" % min(40, count_stmts(p) // 5 * 5))
-            if (off == 0 and len(ck.cov["samples"]) < 3 and nontrivial):
-                ck.sample({"scss": G.to_scss(p), "observation": io})
+            ck.hist("outcome:" + " ".join(mo.split(" | ")[0].split()[1:3]))
+            ck.hist("stmts:%d+" % min(40, count_stmts(p) // 5 * 5))
+            if len(ck.cov["samples"]) < 3 and nontrivial and "corpus" not in feats:
+                ck.sample({"scss": G.to_scss(p), "observation": pretty(io)})
             if io != mo:
                 ck.cov["model_disagreements"] += 1
-                failing.append({"prog": p, "impl": io, "model": mo})
+                failing.append({"prog": p, "impl": io, "model": mo, "spec": so, "kind": "eval"})
+            elif io != so:
+                failing.append({"prog": p, "impl": io, "model": mo, "spec": so, "kind": "eval-known"})
     return failing
 
 
@@ -217,13 +260,13 @@ def count_stmts(body):
     n = 0
     for s in body:
         n += 1
-        for x in s:
-            if isinstance(x, tuple) and x and isinstance(x[0], tuple) and x[0] and isinstance(x[0][0], str) and x[0][0] in STMT_KINDS:
-                n += count_stmts(x)
+        for b in G.inner_bodies(s):
+            n += count_stmts(b)
+        if s[0] in ("func", "mixin"):
+            n += count_stmts(s[3])
+        if s[0] == "incl" and s[3] is not None:
+            n += count_stmts(s[3][1])
     return n
-
-
-STMT_KINDS = {"decl", "rule", "var", "ifs", "for", "each", "while", "func", "ret", "mixin", "incl", "content", "debug", "warn", "error"}
 
 
 def scope_stream(ck, pool, tier):
@@ -233,19 +276,22 @@ def scope_stream(ck, pool, tier):
     trees = [(t, ["corpus"]) for t in G.D3_TREES]
     for _ in range(n):
         trees.append(G.gen_scope_tree(rng, depth=3 if tier == "quick" else 4, size=22 if tier == "quick" else 40))
-    progs, opss = [], []
+    gprogs, eprogs, opss = [], [], []
     for t, _ in trees:
         gp, files, ep = G.tree_ast(t)
-        progs.append((ep, gp, files))
+        gprogs.append((gp, files))
+        eprogs.append(ep)
         opss.append(G.tree_ops(t))
-    impl, model, answers = run_programs(pool, progs)
+    impl, answers = run_impl(pool, gprogs)
+    model = run_model(eprogs, DEV_ALL)
     lines = []
     obs_all = []
     for ops, ans in zip(opss, answers):
         lines.append("scope run " + " ".join(ops))
         # the lookups grass performed, as outputs of the operation sequence
         vals = [l.get("msg") for l in ans.get("logs", []) if l.get("kind") == "debug"]
-        obs, k, dead = [], 0, False
+        undefined = ans.get("status") == "err" and err_class((ans.get("err") or {}).get("message")) == "undefined-variable"
+        obs, k, dead = [], 0, ans.get("status") not in ("ok", "err")
         for o in ops:
             if o[0] != "R" or dead:
                 obs.append("-")
@@ -254,60 +300,176 @@ def scope_stream(ck, pool, tier):
                 obs.append("v" + vals[k])
                 k += 1
             else:
-                obs.append("u" if ans.get("status") == "err" and err_class((ans.get("err") or {}).get("message")) == "undefined-variable" else "?")
+                obs.append("u" if undefined else "p")
                 dead = True
         obs_all.append(obs)
-        lines.append(f"scope check {len(ops)} " + " ".join(ops) + " " + " ".join(obs))
     outs = driver(lines)
+    # P̂ on the implementation's output, evaluated by the Lean driver (`checkObserved`): compare
+    # with the specification up to the first undefined lookup (evaluation stops there)
+    checks = []
+    for ops, ob, runline in zip(opss, obs_all, outs):
+        m = re.match(r"ok (\S+) \| (\S+) ", runline)
+        spec = m.group(2).split(",") if m and m.group(2) != "-" else []
+        cut = next((j for j, o in enumerate(spec) if o == "u"), None)
+        k = len(ops) if cut is None else cut + 1
+        checks.append(f"scope check {k} " + " ".join(ops[:k]) + " " + " ".join(ob[:k]))
+    verdicts = driver(checks)
     failing = []
     for i, ((t, feats), ops) in enumerate(zip(trees, opss)):
-        runline, verdict = outs[2 * i], outs[2 * i + 1]
+        runline, verdict = outs[i], verdicts[i]
         m = re.match(r"ok (\S+) \| (\S+) \| (\S+) \| (\S+) \| inv=(\d)$", runline)
         if not m:
             ck.cov["unsupported_dropped"] += 1
             continue
         now, spec, asf_c, asf_r, inv = m.groups()
-        nontrivial = "K" in "".join(o[0] for o in ops) or any(o[0] in "AS" for o in ops)
-        ck.count(("scope", ops), nontrivial)
-        ck.hist("scope-ops:%d" % min(60, len(ops) // 10 * 10))
+        nontrivial = any(o[0] == "K" for o in ops) or any(o[0] in "AS" for o in ops)
+        ck.count("scope " + " ".join(ops), nontrivial)
+        ck.hist("scope-ops:%d+" % min(60, len(ops) // 10 * 10))
         for f in feats:
             ck.hist("scope-feature:" + f)
         if asf_c != spec:
             ck.hist("scope:would-expose-D3-closure-variant")
         if asf_r != spec:
             ck.hist("scope:would-expose-D3-restore-variant")
-        if inv != "1":
-            ck.notes.append(f"invariant check failed in the MODEL on {' '.join(ops)}")
-        # truncate the model outputs after the first undefined lookup (grass stops there)
+        if inv != "1" or now != spec:
+            ck.notes.append(f"MODEL: invariant or refinement fails on {' '.join(ops)} (contradicts the theorem)")
+            ck.cov["model_disagreements"] += 1
+        if len(ck.cov["samples"]) < 5 and "d3-gadget" in feats and asf_c != spec:
+            ck.sample({"ops": " ".join(ops), "scss": G.to_scss(gprogs[i][0]), "files": gprogs[i][1]})
+        # tie: grass's lookups == the cached model's outputs (up to the first undefined lookup)
         mo = now.split(",") if now != "-" else []
         cut = next((j for j, o in enumerate(mo) if o == "u"), None)
         exp = [o if o[0] in "vu" else "-" for o in mo]
         if cut is not None:
             exp = exp[:cut + 1] + ["-"] * (len(exp) - cut - 1)
         ob = obs_all[i]
+        entry = {"tree": t, "ops": " ".join(ops), "scss": G.to_scss(gprogs[i][0]), "files": gprogs[i][1]}
         if ob != exp:
             ck.cov["model_disagreements"] += 1
-            failing.append({"tree": t, "ops": " ".join(ops), "impl": " ".join(ob), "model": " ".join(exp),
-                            "scss": G.to_scss(progs[i][1]), "files": progs[i][2], "kind": "scope"})
-        elif impl[i] != model[i] and model[i] not in ("unsupported", "ok out-of-fuel", "bad-op"):
+        if verdict != "ok holds":
+            failing.append(dict(entry, impl=" ".join(ob), model=" ".join(exp), verdict=verdict, kind="scope"))
+        elif ob != exp:
+            failing.append(dict(entry, impl=" ".join(ob), model=" ".join(exp), verdict="tie only", kind="scope-tie"))
+        elif impl[i] != model[i] and model[i] not in MODEL_SKIP:
             # the same program through the reference evaluator (imports spliced in place)
             ck.cov["model_disagreements"] += 1
-            failing.append({"tree": t, "ops": " ".join(ops), "impl": impl[i], "model": model[i],
-                            "scss": G.to_scss(progs[i][1]), "files": progs[i][2], "kind": "scope-eval"})
+            failing.append(dict(entry, impl=impl[i], model=model[i], kind="scope-eval"))
     return failing
+
+
+def shrink_scope(pool, f):
+    """Shrink a failing scope tree (delete nodes) while grass and the specification still differ."""
+    def fails(trees):
+        out = []
+        for t in trees:
+            try:
+                ops = G.tree_ops(t)
+            except KeyError:
+                out.append(False)
+                continue
+            gp, files, _ = G.tree_ast(t)
+            _, answers = run_impl(pool, [(gp, files)])
+            vals = [l.get("msg") for l in answers[0].get("logs", []) if l.get("kind") == "debug"]
+            line = driver(["scope run " + " ".join(ops)])[0]
+            m = re.match(r"ok (\S+) \| (\S+) ", line)
+            spec = [o[1:] for o in (m.group(2).split(",") if m else []) if o.startswith("v")]
+            out.append(bool(m) and "u" not in m.group(2).split(",") and vals != spec)
+        return out
+    cur = f["tree"]
+    for _ in range(40):
+        cands = sorted(set(tree_variants(cur)), key=size_of)[:60]
+        flags = fails(cands)
+        nxt = next((c for c, fl in zip(cands, flags) if fl), None)
+        if nxt is None:
+            break
+        cur = nxt
+    return cur
+
+
+def tree_variants(body):
+    for i, nd in enumerate(body):
+        yield body[:i] + body[i + 1:]
+    for i, nd in enumerate(body):
+        if nd[0] == "block":
+            yield body[:i] + nd[2] + body[i + 1:]
+            for b in tree_variants(nd[2]):
+                yield body[:i] + ((nd[0], nd[1], b),) + body[i + 1:]
+        elif nd[0] == "each":
+            for b in tree_variants(nd[3]):
+                yield body[:i] + (nd[:3] + (b,),) + body[i + 1:]
+        elif nd[0] in ("mixin", "import"):
+            for b in tree_variants(nd[2]):
+                yield body[:i] + ((nd[0], nd[1], b),) + body[i + 1:]
+        elif nd[0] == "include" and nd[2] is not None:
+            for b in tree_variants(nd[2]):
+                yield body[:i] + ((nd[0], nd[1], b),) + body[i + 1:]
+
+
+def report(ck, pool, failing):
+    """Shrink and report the failing cases: smallest first; one report per distinct explanation."""
+    seen_tags = set()
+    reported = 0
+    failing = sorted(failing, key=lambda f: len(f.get("scss") or G.to_scss(f["prog"])))
+    budget = 6
+    for f in failing:
+        if budget == 0:
+            break
+        if f["kind"] in ("eval", "eval-known"):
+            known_only = f["kind"] == "eval-known"
+            if known_only:
+                # explained by the as-found switches: which ones?
+                _, asf, spec, tags = classify(pool, f["prog"])
+                key = tuple(tags)
+                if key in seen_tags:
+                    continue
+                seen_tags.add(key)
+            budget -= 1
+
+            def fails(cands, known_only=known_only):
+                impl, _ = run_impl(pool, [(c, None) for c in cands])
+                spec = run_model(cands, "")
+                asf = run_model(cands, DEV_ALL)
+                if known_only:
+                    return [s not in MODEL_SKIP and a not in MODEL_SKIP and i == a and i != s for i, a, s in zip(impl, asf, spec)]
+                return [s not in MODEL_SKIP and a not in MODEL_SKIP and i != a for i, a, s in zip(impl, asf, spec)]
+            small = shrink(pool, f["prog"], fails)
+            impl, asf, spec, tags = classify(pool, small)
+            text = G.to_scss(small)
+            payload = {"source": text, "program": repr(small), "tokens": G.to_tokens(small),
+                       "impl_observation": pretty(impl), "expected_by_property": pretty(spec),
+                       "model_as_found": pretty(asf), "tags": tags, "shrunk_from": G.to_scss(f["prog"])}
+            if impl == spec:
+                continue
+            if ck.impl_violation(text, payload, tags=tags if impl == asf else []):
+                reported += 1
+                log("[C03] VIOLATION candidate:\n" + text + "\nimpl: " + json.dumps(pretty(impl)) + "\nspec: " + json.dumps(pretty(spec)))
+        else:
+            budget -= 1
+            small = shrink_scope(pool, f) if f["kind"] in ("scope", "scope-tie") else f["tree"]
+            gp, files, _ = G.tree_ast(small)
+            text = G.to_scss(gp)
+            payload = {"source": text, "files": files, "ops": " ".join(G.tree_ops(small)), "kind": f["kind"],
+                       "impl_observation": f["impl"], "model_observation": f["model"], "verdict": f.get("verdict"),
+                       "expected_by_property": "lookups answered as by the cache-free scope specification",
+                       "shrunk_from": f["scss"]}
+            if ck.impl_violation(text, payload, tags=[]):
+                reported += 1
+                log("[C03] VIOLATION candidate (scope):\n" + text + json.dumps(files) + "\n" + json.dumps(payload)[:800])
+    return reported
 
 
 def run(tier, seed):
     ck = Check("C03", tier, seed)
     ck.cov["rule"] = ("(1) scope stream: programs generated from random scope-operation trees (blocks, @each bindings, "
                       "plain/semi-global/!global assignments, reads, @mixin closures, @include with and without content "
-                      "blocks, @content, @import of a file with @use); distinct by operation sequence, non-trivial when it "
-                      "contains a closure call or a nested-scope assignment. (2) eval stream: random type- and "
-                      "scope-directed programs; distinct by token form, non-trivial when they call a user function, "
-                      "include a mixin, assign from a nested scope or use !global.")
+                      "blocks, @content, @import of a file with @use, D3 gadgets); distinct by operation sequence, "
+                      "non-trivial when it contains a closure call or a nested-scope assignment. (2) eval stream: random "
+                      "type- and scope-directed programs; distinct by token form, non-trivial when they call a user "
+                      "function, include a mixin, assign from a nested scope or use !global.")
     ck.assumptions = ["numbers restricted to dyadic rationals exactly representable as doubles with <= 10 decimals",
                       "declarations compared per selector (rule ordering belongs to C04)",
-                      "errors compared by class (plus the @error message) together with the log trace up to the error"]
+                      "errors compared by class (plus the @error message) together with the log trace up to the error",
+                      "named arguments with side effects: at most one per call (evaluation order of named arguments is finding N1)"]
     ck.do_prove(cores=("scope", "eval"))
     if not ck.do_build_runner():
         ck.unproved("correspondence-broken", {"why": "runner does not build against /repo", "error": getattr(ck, "build_error", "")})
@@ -315,23 +477,44 @@ def run(tier, seed):
     pool = RunnerPool()
     t0 = time.time()
     failing = scope_stream(ck, pool, tier)
-    log(f"[C03] scope stream done in {time.time() - t0:.1f}s, failing={len(failing)}")
+    log(f"[C03] scope stream: {time.time() - t0:.1f}s, failing={len(failing)}")
     t0 = time.time()
     failing += eval_stream(ck, pool, tier)
-    log(f"[C03] eval stream done in {time.time() - t0:.1f}s, failing={len(failing)}")
-    reported = 0
-    for f in failing[:20]:
-        log("[C03] DISAGREE", json.dumps({k: (G.to_scss(v) if k == "prog" else v) for k, v in f.items() if k != "tree"})[:1500])
-    for f in failing[:5]:
-        text = f.get("scss") or G.to_scss(f["prog"])
-        payload = {"source": text, "impl_observation": f["impl"], "model_observation": f["model"],
-                   "expected_by_property": "the observation the reference evaluator (Sass rules) produces"}
-        if ck.impl_violation(text, payload, tags=[]):
-            reported += 1
+    log(f"[C03] eval stream: {time.time() - t0:.1f}s, failing={len(failing)}")
+    t0 = time.time()
+    reported = report(ck, pool, failing)
+    log(f"[C03] shrink/report: {time.time() - t0:.1f}s reported={reported}")
+    if ck.cov["model_disagreements"] and not reported:
+        ck.unproved("correspondence-broken", {"cases": [
+            {k: (G.to_scss(v) if k == "prog" else v) for k, v in f.items() if k != "tree"}
+            for f in failing if f["kind"] != "eval-known"][:3]})
     return ck.finish()
 
 
 def replay(path):
     r = json.load(open(path))
+    ck = Check("C03", "quick", 0)
+    ck.do_build_runner()
+    pool = RunnerPool(1)
+    print("source:\n" + (r.get("source") or ""))
+    if r.get("tokens"):
+        prog = eval(r["program"], {"Fraction": G.Fraction})
+        impl, answers = run_impl(pool, [(prog, None)])
+        spec = run_model([prog], "")[0]
+        asf = run_model([prog], DEV_ALL)[0]
+        print("grass        :", json.dumps(pretty(impl[0])))
+        print("specification:", json.dumps(pretty(spec)))
+        print("as-found     :", json.dumps(pretty(asf)))
+        print("TIE", "ok" if impl[0] == asf else "BROKEN", " DIRECT", "holds" if impl[0] == spec else "FAILS")
+        return 0 if impl[0] == spec else 1
+    if r.get("ops"):
+        files = r.get("files") or {}
+        fs = {"/w/main.scss": r["source"]}
+        for k, v in files.items():
+            fs["/w/" + k] = v
+        ans = pool.map([compile_job(files=fs, entry="/w/main.scss", syntax="scss")])[0]
+        print("grass:", ans.get("status"), [l.get("msg") for l in ans.get("logs", [])], (ans.get("err") or {}).get("message"))
+        print("model:", driver(["scope run " + r["ops"]])[0])
+        return 0
     print(json.dumps(r, indent=1))
     return 0
